@@ -107,6 +107,44 @@ func (w *cWorld) record(hdr L, li *leaseInfo) {
 // past reports whether the script has run out and the clock has moved on: nothing is recorded any more.
 func (w *cWorld) past() bool { return w.stop && w.rel() > w.stopAt }
 
+// limiterTrips: will the client's rate limiter (rate.NewLimiter(1, 10): 10 s of credit, one second back per second, one second per
+// Run-loop iteration) refuse the iteration that ends now?  Every recorded event is one iteration, which ends when the next one
+// begins; the current one ends now.  Then the client pauses for 20 s and exits, and a link-up during that pause would be a
+// stimulus the record has no place for (it belongs to no blocking operation): the script leaves such a client alone.
+func (w *cWorld) limiterTrips(now uint64) bool {
+	const sec = int64(time.Second)
+	tok, last := 10*sec, int64(0)
+	begin := func(h L) int64 {
+		switch h[0] {
+		case 1:
+			return int64(h[12])
+		case 2, 4:
+			return int64(h[4])
+		case 3:
+			return int64(h[5])
+		}
+		return int64(h[2])
+	}
+	var ends []int64
+	for i, ev := range w.events {
+		if i > 0 {
+			ends = append(ends, begin(ev.hdr))
+		}
+	}
+	ends = append(ends, int64(now))
+	for _, t := range ends {
+		if t > last {
+			tok = min(10*sec, tok+(t-last))
+			last = t
+		}
+		if tok < sec {
+			return true
+		}
+		tok -= sec
+	}
+	return false
+}
+
 func ms(n int) time.Duration { return time.Duration(n) * time.Millisecond }
 
 // newLease draws what the server offers in a session.
@@ -513,8 +551,11 @@ func (w *cWorld) onIfcall(op string, n int, c *libif.Ifconfig) error {
 			return nil
 		}
 		w.record(L{3, 0, 1, 0, 0, now}, nil)
-		// bound: sleeping until T1, possibly woken by a link-up
-		if w.r.Intn(4) == 0 {
+		// bound: sleeping until T1, possibly woken by a link-up (drawn in any case, so that the scripts stay what they were)
+		if wake := w.r.Intn(4) == 0; wake && w.limiterTrips(now) {
+			w.r.Intn(24000)
+			w.record(L{4, 0, 0, 0, now}, nil)
+		} else if wake {
 			d := ms(1000 + w.r.Intn(24000))
 			w.record(L{4, 1, 1, uint64(d), now}, nil)
 			w.after(d, func() { ifmon.VerifLinkUp(w.name) })
